@@ -519,6 +519,14 @@ theorem old_keying_not_faithful : ¬ Faithful (componentKeyedSys E fs) := by
   revert h2
   decide
 
+/-- the `Inv` hypotheses are met by every reachable state, e.g. the non-empty cache after a good call -/
+example : Inv (rustSys E fs) (run (rustSys E fs) .init [okCall, missingCall]).1 ∧
+    (run (rustSys E fs) .init [okCall, missingCall]).1.q.length = 1 :=
+  ⟨rust_inv_reachable E fs _, by decide⟩
+
+/-- `schedule_completes`: the program counters a thread starts from are well-formed -/
+example : (Pc.start okCall : Pc Path (String × Unit) String Unit).wf := trivial
+
 /-- the hypotheses of `no_stale_alias` are satisfiable by genuinely different paths -/
 example : qDot ≠ qPath ∧ sGql ≠ sPath ∧ fs2 qDot = fs2 qPath ∧ fs2 sGql = fs2 sPath ∧
     schemaFormat sGql = schemaFormat sPath := by decide
